@@ -79,6 +79,10 @@ func c13Gen(r *rand.Rand, tier string) any {
 		} else if i < n-1 && r.IntN(5) == 0 {
 			// the real build is interrupted: the dry runs that follow see a half-recorded state
 			real.CrashAt = 1 + r.IntN(600)
+			if r.IntN(2) == 0 {
+				// ... a forced build, killed between the two record writes of a source file
+				real.CrashAt, real.Always, real.CrashAfterSourceSave = 0, true, 1+r.IntN(3)
+			}
 		}
 		sc.Ops = append(sc.Ops, real)
 	}
@@ -141,7 +145,21 @@ func runHistory(c *simcheck.Ctx, sc *histScenario, prefix string, skip func(i in
 			pc.IOErrAt = map[int]int{op.N: op.N}
 		}
 		pc.CrashAt = op.CrashAt
-		res := h.build(i, op, pc, nil)
+		var hook func(step int, kind, detail string)
+		if k := op.CrashAfterSourceSave; k > 0 {
+			renames := 0
+			hook = func(step int, kind, detail string) {
+				if kind == "os.rename" && strings.Contains(detail, "sources/") {
+					if renames++; renames == 2*k-1 && h.w.sim != nil {
+						h.w.sim.Cfg.CrashAt = step + 1 // the rename happens, then the process dies
+					}
+				}
+			}
+		}
+		res := h.build(i, op, pc, hook)
+		if res.Sim.Crashed && op.CrashAfterSourceSave > 0 {
+			c.St.Count("builds_killed_between_the_two_record_writes_of_a_source", 1)
+		}
 		if res.Sim.Crashed {
 			c.St.Count("interrupted_builds", 1)
 			if ents, err := os.ReadDir(filepath.Join(h.w.root, ".dawn", "build", "temp")); err == nil && len(ents) > 0 {
